@@ -116,7 +116,7 @@ def handle (line : String) : String :=
       | none => if deco = 1 then Deco.rich else if deco = 2 then Deco.trivial else Deco.plain
     let ci : CharInfo := { lookup := fun cp => (table.find? (·.cp = cp)).getD ⟨cp, 1, false, false⟩ }
     match renderDom cfg d w (useDoc == 1) acss ucss ci (depthOf dom + 1) dom with
-    | .lines ls => "ok " ++ toString ls.length ++ " | " ++ " | ".intercalate (ls.map (if deco = 1 then showLineRich else showLine))
+    | .lines ls => "ok " ++ toString ls.length ++ " | " ++ " | ".intercalate (ls.map (if flags / 256 % 2 == 1 then showLineRich else showLine))
     | .narrow => "narrow"
     | .panic s => "panic " ++ s
     | .hang s => "hang " ++ s
